@@ -25,19 +25,21 @@ def sources_untouched(ctx, k, act, d, nv, problems):
 def plans(tier):
     if tier == "quick":
         return [("d3-inplace-dmd", 1, 2), ("d3-inplace-mdm", 1, 2), ("d3-inplace-ddm", 1, 3), ("d3-inplace-mmd", 1, 2), ("d2-inplace2", 1, 2),
-                ("d2-inplace3", 1, 3)]
+                ("d2-inplace3", 1, 3), ("d4-where-out", 2, 1)]
     return [("d3-inplace-dmd", 2, 1), ("d3-inplace-mdm", 2, 1), ("d3-inplace-ddm", 2, 1), ("d3-inplace-mmd", 2, 1), ("d2-inplace2", 3, 1),
-            ("d2-inplace3", 2, 1)]
+            ("d2-inplace3", 2, 1), ("d4-where-out", 4, 1)]
 
 
 def run(chk):
     rd = tlc.new_rundir("C11")
     try:
         total = 0
-        for name, maxvar, stride in plans(chk.tier):
-            behs, res = replay.generate_programs(rundir=rd, timeout=3000, **progcheck.CORPORA[name])
+        for name, maxvar, stride in progcheck.dev_filter(plans(chk.tier)):
+            kw = dict(progcheck.CORPORA[name])
+            keep = kw.pop("keep", None)
+            behs, res = replay.generate_programs(rundir=rd, timeout=3000, **kw)
             chk.add_tlc(res, f"gen:{name}")
-            behs = [b for b in behs if any(a["a"] in replay.INPLACE for a in b["prog"])]
+            behs = [b for b in behs if any(a["a"] in replay.INPLACE for a in b["prog"]) and (keep is None or keep(b))]
             picked = progcheck.stride_sample(behs, stride, chk.seed)
             out = replay.run_corpus(picked, observers=OBS, max_variants=maxvar, seed=chk.seed, opts={"no_compute": True})
             if out.machinery:
@@ -65,7 +67,7 @@ def run(chk):
         chk.cov["exhaustive"] = True
         chk.cov["rule"] = ("every behaviour of ArrayProgram.tla over {Index, Elemwise, Rechunk, Transpose} and the in-place actions {SetItem "
                            "(scalar / collection value, every lean basic index), MaskSet (NumPy and dask masks), OutUfunc} of depth 3 (1-D: derive-mutate-derive, mutate-derive-mutate, "
-                           "derive-derive-mutate, mutate-mutate-derive) / 2 (2-D, 3-D) that contains an in-place action; all live collections computed after every in-place action")
+                           "derive-derive-mutate, mutate-mutate-derive) / 2 (2-D, 3-D) that contains an in-place action, plus 'rechunk ; masked ufunc with out= ; in-place ; the same masked ufunc again'; all live collections computed after every in-place action")
         chk.assumptions += ["an in-place operation refused at assignment time (exception raised by the assignment itself) is a decline",
                             "identity operations that return the very same object (x[:]) are followed by .copy(), so every handle of "
                             "the specification is a distinct collection object"]
